@@ -47,10 +47,14 @@ Definition parse_count (s : string) : option N :=
   | _ => match digits 10 s with Some v => if ((1 <=? v) && (v <=? 65535))%N then Some v else None | None => None end
   end.
 
-(* Pairs::as_str of the inner pairs: the text from the first to the last inner pair; for the
-   trees the grammar produces this is the text of the single inner pair *)
+(* Pairs::as_str of the inner pairs: the text from the first to the last inner pair (with a
+   comment inside the brackets that is the number followed by the comment: not a number) *)
 Definition inner_str (t : tree) : string :=
-  match t_kids t with [] => "" | k :: _ => t_text k end.
+  match t_kids t with
+  | [] => ""
+  | [k] => t_text k
+  | k :: r => String.concat "" (t_text k :: map t_text r)   (* a COMMENT pair after the number: the span covers both *)
+  end.
 
 (* ParamTypeIn / ParamTypeOut ::from *)
 Definition param_type_of (md : mode) (t : tree) : outcome (aty * pshape) :=
